@@ -13,6 +13,32 @@ for `+ - *` because the elastic result is wider, and whose division test is fals
 elastic range is symmetric), the elastic layer (policy, storage, operand conversion) and the
 rounding layer (division).  The storage is modelled as a two's-complement integer of the width
 `set_digits` selects (C10 shows wide_integer is exactly that).
+
+## Shifts (section "shifts" below)
+
+* **run-time count** (`x << n`, `x >> n`, `n` a built-in integer or a static_integer — the wrapper
+  shift operators unwrap a CNL count to its innermost value, and every comparison the overflow layer
+  makes with it is by value, so the count is an `Int`): the scaled layer (`scaled/binary_operator.h`,
+  shift_op with a scaled tag) hands the representation to the overflow layer
+  (`overflow/custom_operator.h`, shift_op): `is_overflow<shift_left_op, positive / negative>`
+  (`overflow/is_overflow.h`) on the `elastic_integer<D>` operand — whose `positive_digits` is `D`,
+  which has **no** most negative number and whose `width` is `D + 1` — then the tag's reaction, the
+  "every bit shifted out" result for counts `≥ D + 1`, else the elastic run-time shift
+  (`elastic_integer/custom_operator.h`: the representation's operator, rewrapped in the same type);
+  the rounding layer and the wide storage pass shifts through to the built-in operator (`cBin`).
+  The result has the operand's digits and exponent.  A negative run-time count reaches the built-in
+  shift (undefined, as for built-in operands; outside the property's quantifier, C06/C07 likewise).
+* **`cnl::constant<k>` count on a bare static_integer**: the same overflow-layer operator with
+  `Rhs = constant<k>`; the result type of `<<` is `static_integer<D + k>` (`Elastic.shlConst`), so
+  `positive_digits = D + k` and neither test can fire; `>>` yields `static_integer<D − k>`
+  (`Elastic.shrConst`).  `k < 0` compiles and executes a built-in shift by a negative count; `k > D`
+  on `>>` compiles to a type with a negative digit count: both are outside the quantifier.
+* **`cnl::constant<k>` count on a static_number** (`scaled_integer/operators.h`): only the exponent
+  changes, for every `k` of either sign.
+* **`<<=`, `>>=`** (`custom_operator/definition.h`): `lhs = convert(lhs OP rhs)`, i.e. the shift
+  followed by `Static.convert` to the left operand's type.
+* a static_number used as a *count* compiles and is unwrapped to its representation value (its
+  exponent is ignored); not a count kind of this model.
 -/
 namespace Cnl.Static
 open Cnl
@@ -133,5 +159,138 @@ def convert (c : Cfg) (D : Nat) (E : Int) (x : SNum) : Res SNum :=
         let mid ← narrowDigits c (x.digits - k) q.2
         let v ← narrowDigits c D mid
         pure ⟨D, E, v⟩
+
+/-! ## shifts -/
+
+/-- the tag's reaction to a detected overflow of a `D`-digit result: `numeric_limits` of the
+elastic_integer are `±(2^D − 1)` -/
+def reactDigits (tag : OvTag) (pos : Bool) (D : Nat) : Res Int :=
+  match tag with
+  | .sat => .ok (if pos then 2^D - 1 else -(2^D - 1))
+  | .thr => .throws pos
+  | .trp => .trap pos
+  | .und => .unreachable (if pos then "positive overflow" else "negative overflow")
+  | .nat => .ill "native tag: not modelled"
+
+/-- `elastic_integer<D> OP n` for a run-time count (`elastic_integer/custom_operator.h`):
+`from_rep<lhs_type>(Operator{}(to_rep(lhs), rhs))` — the built-in shift of the storage type -/
+def elShift (op : BinOp) (D : Nat) (v k : Int) : Res Int :=
+  match Elastic.repTy D narrowest with
+  | none => .ill "digits exceed the widest integer"
+  | some rep =>
+    match cBin op (rep, v) (i32, k) with
+    | .ok r => .ok (rep.wrap r.2)
+    | .ub u => .ub u
+    | _ => .ill "unexpected"
+
+/-- unary minus of the `elastic_integer<D>` operand, by value -/
+def elNeg (D : Nat) (v : Int) : Res Int :=
+  match Elastic.neg ⟨D, narrowest, v⟩ with
+  | .ok z => .ok z.value
+  | .ub u => .ub u
+  | _ => .ill "digits exceed the widest integer"
+
+/-- `is_overflow<shift_left_op, Polarity>` (`overflow/is_overflow.h`) on an operand that is an
+`elastic_integer<D>`; `pd` is `positive_digits` of the *result* type (`D` for a run-time count,
+`D + k` for `constant<k>`).  The result type has no most negative number: `max_shift = pd`, and the
+negative test is the positive test of the negated operand (`(-lhs >> (pd - rhs)) != 0`). -/
+def isOverflowShl (pos : Bool) (pd D : Nat) (x k : Int) : Res Bool :=
+  if pos then
+    if x > 0 then
+      if k > 0 then
+        if k < pd then do
+          let s ← elShift .shr D x (pd - k)
+          pure (s != 0)
+        else .ok true
+      else .ok false
+    else .ok false
+  else
+    if x < 0 then
+      if k > 0 then
+        if k < pd then do
+          let n ← elNeg D x
+          let s ← elShift .shr D n (pd - k)
+          pure (s != 0)
+        else .ok true
+      else .ok false
+    else .ok false
+
+/-- **as found** (before the repair of `C11.shl_to_minus_two_pow_digits_not_flagged`): the negative
+test compared `lhs >> (pd - rhs)` with `-1` whatever the result type, so `-2^(D-k) << k = -2^D` —
+one below the lowest value `-(2^D - 1)` of the symmetric elastic range — was let through -/
+def isOverflowShlNegOrig (pd D : Nat) (x k : Int) : Res Bool :=
+  if x < 0 then
+    if k > 0 then
+      if k < pd then do
+        let s ← elShift .shr D x (pd - k)
+        pure (s != -1)
+      else .ok true
+    else .ok false
+  else .ok false
+
+def mkS (D : Nat) (E : Int) (r : Res Int) : Res SNum := r.map (fun v => ⟨D, E, v⟩)
+
+/-- the overflow layer's left shift operator (`overflow/custom_operator.h`, shift_op) with the negative
+test as a parameter; `pd` is the digit count of the result type (its `positive_digits`), `D` that of
+the operand, and `sh` the elastic layer's shift, reached when neither test fires and the count is
+below `max(width<result>, width<Lhs>) = max(pd, D) + 1` -/
+def checkedShl (negTest : Res Bool) (c : Cfg) (pd D : Nat) (E : Int) (x k : Int) (sh : Res SNum) : Res SNum :=
+  if c.tag = .nat then .ill "native tag: not modelled" else do
+  let p ← isOverflowShl true pd D x k
+  if p then mkS pd E (reactDigits c.tag true pd) else do
+  let n ← negTest
+  if n then mkS pd E (reactDigits c.tag false pd)
+  -- every bit of lhs is shifted out of the result: `rhs >= max(width<result>, width<Lhs>)`
+  else if k ≥ (max (pd + 1) (D + 1) : Nat) then .ok ⟨pd, E, if x < 0 then -1 else 0⟩
+  else sh
+
+/-- `x << n`, `x >> n` with a run-time count `n` (by value); static_integer and static_number alike -/
+def shiftRT (c : Cfg) (op : BinOp) (x : SNum) (k : Int) : Res SNum :=
+  match op with
+  | .shl =>
+    checkedShl (isOverflowShl false x.digits x.digits x.value k) c x.digits x.digits x.exp x.value k
+      (mkS x.digits x.exp (elShift .shl x.digits x.value k))
+  | .shr =>
+    if c.tag = .nat then .ill "native tag: not modelled"
+    else if k ≥ (x.digits + 1 : Nat) then .ok ⟨x.digits, x.exp, if x.value < 0 then -1 else 0⟩
+    else mkS x.digits x.exp (elShift .shr x.digits x.value k)
+  | _ => .ill "operator outside the static model"
+
+/-- **as found**: `shiftRT` with the as-found negative test -/
+def shiftRTOrig (c : Cfg) (op : BinOp) (x : SNum) (k : Int) : Res SNum :=
+  match op with
+  | .shl =>
+    checkedShl (isOverflowShlNegOrig x.digits x.digits x.value k) c x.digits x.digits x.exp x.value k
+      (mkS x.digits x.exp (elShift .shl x.digits x.value k))
+  | _ => shiftRT c op x k
+
+/-- `x << constant<k>`, `x >> constant<k>` on a bare static_integer (`k ≥ 0`; `>>`: `k ≤ D`) -/
+def shiftConstInt (c : Cfg) (op : BinOp) (x : SNum) (k : Nat) : Res SNum :=
+  match op with
+  | .shl =>
+    checkedShl (isOverflowShl false (x.digits + k) x.digits x.value k) c (x.digits + k) x.digits x.exp x.value k
+      (match Elastic.shlConst (toE x) k with
+       | .ok z => .ok ⟨z.digits, x.exp, z.value⟩
+       | .ub u => .ub u
+       | _ => .ill "digits exceed the widest integer")
+  | .shr =>
+    if c.tag = .nat then .ill "native tag: not modelled"
+    else if k > x.digits then .ill "negative digit count"
+    else
+      match Elastic.shrConst (toE x) k with
+      | .ok z => .ok ⟨z.digits, x.exp, z.value⟩
+      | .ub u => .ub u
+      | _ => .ill "digits exceed the widest integer"
+  | _ => .ill "operator outside the static model"
+
+/-- `x << constant<k>`, `x >> constant<k>` on a static_number: the exponent moves, `k` of either sign -/
+def shiftConstNum (op : BinOp) (x : SNum) (k : Int) : Res SNum :=
+  match op with
+  | .shl => .ok ⟨x.digits, x.exp + k, x.value⟩
+  | .shr => .ok ⟨x.digits, x.exp - k, x.value⟩
+  | _ => .ill "operator outside the static model"
+
+/-- `x <<= n`, `x >>= n`: the shift, then the conversion back to the left operand's type -/
+def shiftAssign (c : Cfg) (sh : Res SNum) (x : SNum) : Res SNum := sh >>= fun z => convert c x.digits x.exp z
 
 end Cnl.Static
